@@ -670,7 +670,7 @@ MANIFEST = {
     "for 14 binary operators in plain, reflected and in-place form plus neg/pos/abs, is evaluated under EVERY spelling assignment; depth-2 trees (a.b).c and a.(b.c) over {+,-,*,/}. Scalars in the "
     "Fraction registry are compared exactly; 1-d ndarray magnitudes in the float registry (where in-place forms really are in place) with 1e-9. Each tree's results must agree across spellings, "
     "match an exact value/dimension calculator written from the property statement (which decides DimensionalityError / number-acceptance clauses), and leave every operand other than an in-place "
-    "target bit-identical. The six comparison operators and sorted() are additionally run over 4 absolute temperatures, each written in every scale of the bundled registry (K, degC, degF, degR, mK): every "
+    "target bit-identical; after every in-place form (and after an in-place form followed by ito_root_units without looking at the object in between) dimensionality / dimensionless / unitless / check / is_compatible_with must describe the units the object now carries. The six comparison operators and sorted() are additionally run over 4 absolute temperatures, each written in every scale of the bundled registry (K, degC, degF, degR, mK): every "
     "ordered pair of spellings must compare as the kelvin values do, and in an autoconvert registry their products and quotients with ordinary quantities (compound, dimensionless, inverse) must not depend on the scale, in either operand order.",
     "note": "Trusted: the 80-line reference calculator and R1 factors. Arithmetic on offset units is C06's subject (only their comparisons are covered here); trees deeper than 2 and leaves outside the alphabet are outside the bound; ZeroDivision outcomes "
     "for float/ndarray magnitudes are not compared (IEEE inf/nan semantics).",
